@@ -2,7 +2,7 @@
 Require Extraction.
 Require Import ExtrOcamlBasic.
 From Coq Require Import ZArith NArith List.
-Require Import Yui.Model.Link Yui.Model.Tng Yui.Model.TngCob.
+Require Import Yui.Model.Link Yui.Model.Tng Yui.Model.TngCob Yui.Model.TngStack.
 Extraction Language OCaml.
 Extraction "../ocaml/gen/c01tng_model.ml"
   Z.add N.add Nat.add
@@ -15,4 +15,9 @@ Extraction "../ocaml/gen/c01tng_model.ml"
   TngCob.cc_new TngCob.cc_id TngCob.cc_closed TngCob.cc_ndots TngCob.cc_is_closed TngCob.cc_is_cyl TngCob.cc_is_id
   TngCob.cc_is_invertible TngCob.cc_inv TngCob.cc_nbdr TngCob.cc_euler TngCob.cc_deg TngCob.cc_is_connectable
   TngCob.cc_connect TngCob.cob_new TngCob.cob_id TngCob.cob_connect_comp TngCob.cob_connect TngCob.cob_euler
-  TngCob.cob_deg TngCob.cob_nbdr TngCob.cob_is_invertible TngCob.cob_inv TngCob.cob_is_closed TngCob.sdl_of.
+  TngCob.cob_deg TngCob.cob_nbdr TngCob.cob_is_invertible TngCob.cob_inv TngCob.cob_is_closed TngCob.sdl_of
+  TngStack.cc_cap_off TngStack.cc_add_dot TngStack.cc_sdl TngStack.cc_merge TngStack.cc_split TngStack.cc_cup TngStack.cc_cap
+  TngStack.cc_eqb TngStack.cob_eqb TngStack.cob_src TngStack.cob_tgt TngStack.cob_cap_off TngStack.cob_is_stackable
+  TngStack.take_stackable TngStack.stack_comps TngStack.cob_stack_fuel TngStack.cob_stack TngStack.cob_mul
+  TngStack.lc_from_list TngStack.lc_add TngStack.lc_scale TngStack.lc_mul TngStack.cc_part_eval TngStack.cob_part_eval
+  TngStack.lc_part_eval TngStack.lc_is_invertible TngStack.lc_inv_first TngStack.lc_is_stackable.
